@@ -41,6 +41,13 @@ impl Observer<Val, Val> for Dummy {
 fn has_siblings(tag: usize) -> bool {
   SIBLINGS.with(|s| s.borrow().contains(&tag))
 }
+/// The Subject behind input `tag` (Subject kinds only).
+pub fn subject_of(tag: usize) -> Option<Subject<'static, Val, Val>> {
+  SUBJECTS.with(|h| h.borrow().iter().find(|(t, _)| *t == tag).map(|(_, s)| s.clone()))
+}
+pub fn subject_of_t(tag: usize) -> Option<SubjectThreads<Val, Val>> {
+  SUBJECTS_T.with(|h| h.borrow().iter().find(|(t, _)| *t == tag).map(|(_, s)| s.clone()))
+}
 /// Subscribe one more, live, sibling to the Subject input `tag` (after the harness's own subscription).
 pub fn add_late_sibling(tag: usize) {
   if !has_siblings(tag) {
